@@ -250,4 +250,82 @@ theorem geo_place {tb : List (Nat × BTR)} {manual : List ManualEdge} {st st1 : 
         rw [r_new]; exact (fedges _).mpr (Or.inr ⟨e0, he0, rfl⟩)
       · rw [r_old a p ha]; exact (fedges _).mpr (Or.inl (G.internal a p G0 e0 ha hG he0))
 
+/-- under coherence, an edge of the graph under construction that joins the exit logged for `a` to the entry logged
+    for `b` carries the guard of every transfer requested between `a` and `b` -/
+theorem geo_boundary_cond {tb : List (Nat × BTR)} {manual : List ManualEdge} {st : AsmState} {ren : Nat → Nat → Nat}
+    (hc : Coherent tb manual) (G : Geo tb manual st ren) {a b : Nat} {pa pb : Nat × Nat} {c : Option Expr}
+    (ha : (a, pa) ∈ st.instrIdx) (hb : (b, pb) ∈ st.instrIdx) (hq : (a, b, c) ∈ reqList tb manual)
+    {e : Edge} (he : e ∈ st.cfg.edges) (hh : e.head = pa.2) (ht : e.tail = pb.1) : e.cond = c := by
+  obtain ⟨Ga, gea, gxa, hGa, hwGa, _, hexa, _, hpexa⟩ := G.log a pa.1 pa.2 ha
+  obtain ⟨Gb, geb, gxb, hGb, hwGb, henb, _, hpenb, _⟩ := G.log b pb.1 pb.2 hb
+  obtain ⟨bxa, hbxa, hbxai⟩ := (hasBlock_iff Ga gxa).mp (hwGa.exitOk gxa hexa)
+  obtain ⟨beb, hbeb, hbebi⟩ := (hasBlock_iff Gb geb).mp (hwGb.entryOk geb henb)
+  rcases G.edges e he with ⟨a', p', G', e0, ha', hG', he0, rfl⟩ | ⟨a2, b2, c2, pa2, pb2, hr2, ha2, hb2, rfl⟩
+  · -- a copy of an internal edge that leaves an exit block: excluded by coherence
+    obtain ⟨G'', _, _, hG'', hwG', _⟩ := G.log a' p'.1 p'.2 ha'
+    rw [hG'] at hG''; cases hG''
+    obtain ⟨b0, hb0, hb0i⟩ := (hasBlock_iff G' _).mp (hwG'.edgesJoin e0 he0).1
+    have hhead : ren a' e0.head = ren a gxa := by rw [← hpexa]; exact hh
+    obtain ⟨rfl, hidx⟩ := G.inj a' p' G' b0 a pa Ga bxa ha' hG' hb0 ha hGa hbxa (by rw [hb0i, hbxai]; exact hhead)
+    rw [hGa] at hG'; cases hG'
+    have hout : e0 ∈ Ga.edgesOut gxa := by
+      simp only [Cfg.edgesOut, List.mem_filter, beq_iff_eq]
+      exact ⟨he0, by rw [← hb0i, hidx, hbxai]⟩
+    obtain ⟨g, hg, hga⟩ : ∃ g ∈ allInstrs tb, g.addr = a' := by
+      unfold graphAt at hGa
+      cases hf : (allInstrs tb).find? (fun x => x.addr == a') with
+      | none => rw [hf] at hGa; cases hGa
+      | some g => exact ⟨g, List.mem_of_find?_eq_some hf, by simpa using List.find?_some hf⟩
+    have hgG : g.cfg = Ga := by
+      have := graphAt_of_mem hc hg
+      rw [hga, hGa] at this; exact (Option.some.inj this).symm
+    have := hc.exitOut g hg gxa (by rw [hgG]; exact hexa)
+    rw [hgG] at this
+    rw [this] at hout; cases hout
+  · -- a boundary edge requested for the same two instructions
+    obtain ⟨G2, _, gx2, hG2, hwG2, _, hex2, _, hpex2⟩ := G.log a2 pa2.1 pa2.2 ha2
+    obtain ⟨G3, ge3, _, hG3, hwG3, hen3, _, hpen3, _⟩ := G.log b2 pb2.1 pb2.2 hb2
+    obtain ⟨bx2, hbx2, hbx2i⟩ := (hasBlock_iff G2 gx2).mp (hwG2.exitOk gx2 hex2)
+    obtain ⟨be3, hbe3, hbe3i⟩ := (hasBlock_iff G3 ge3).mp (hwG3.entryOk ge3 hen3)
+    have h1 : pa2.2 = pa.2 := hh
+    have h2 : pb2.1 = pb.1 := ht
+    obtain ⟨rfl, _⟩ := G.inj a2 pa2 G2 bx2 a pa Ga bxa ha2 hG2 hbx2 ha hGa hbxa
+      (by rw [hbx2i, hbxai, ← hpex2, ← hpexa]; exact h1)
+    obtain ⟨rfl, _⟩ := G.inj b2 pb2 G3 be3 b pb Gb beb hb2 hG3 hbe3 hb hGb hbeb
+      (by rw [hbe3i, hbebi, ← hpen3, ← hpenb]; exact h2)
+    exact hc.reqFun _ hr2 _ hq rfl rfl
+
+/-- when every edge between the two blocks already carries the requested guard, the repaired successor loop does
+    what `linkIfAbsent` does -/
+theorem linkOrMerge_as_linkIfAbsent {c c' : Cfg} {h t : Nat} {cond : Option Expr}
+    (hsame : ∀ e ∈ c.edges, e.head = h → e.tail = t → e.cond = cond)
+    (hl : linkOrMerge c h t cond = .ok c') : linkIfAbsent c h t cond = .ok c' := by
+  unfold linkOrMerge at hl
+  split at hl
+  · rename_i e hfind
+    have hem : e ∈ c.edges := List.mem_of_find?_eq_some hfind
+    have hkey : e.head = h ∧ e.tail = t := by simpa using List.find?_some hfind
+    have hcond := hsame e hem hkey.1 hkey.2
+    have hhas : hasEdge c h t = true := by
+      simp only [hasEdge, List.any_eq_true]
+      exact ⟨e, hem, by simp [hkey.1, hkey.2]⟩
+    have hres : c' = c := by
+      cases hec : e.cond with
+      | none =>
+        rw [hec] at hl
+        simp only [Res.ok.injEq] at hl; exact hl.symm
+      | some ex =>
+        rw [hec] at hl hcond
+        cases cond with
+        | none => cases hcond
+        | some g =>
+          have : ex = g := Option.some.inj hcond
+          subst this
+          simp only [ne_eq, not_true_eq_false, if_false, Res.ok.injEq] at hl
+          exact hl.symm
+    subst hres
+    unfold linkIfAbsent
+    simp [hhas]
+  · exact hl
+
 end Falcon.C06Asm
